@@ -1024,6 +1024,27 @@ class CallMixin:
         i = v.ty.index_of(TStr)
         return SV(TStr, v.ty.project(v.t, i))
 
+    def spec_list_of(self, node):
+        (v,) = self.args_of(node)
+        if isinstance(v.ty, TList):
+            return v
+        for i, a in enumerate(v.ty.alts):
+            if isinstance(a, TList):
+                r = SV(a, v.ty.project(v.t, i))
+                self.ctx.assume_wf(r)
+                return r
+        raise Unsupported("list_of: no list alternative", node)
+
+    def spec_single(self, node):
+        (v,) = self.args_of(node)
+        return self.list_append(self.empty_list(TList(v.ty)), v)
+
+    def spec_same(self, node):
+        """same(a, b): identical value (structural z3 equality) -- the cheap way to say 'untouched'."""
+        a, b = self.args_of(node)
+        a, b = self.unify(a, b, node)
+        return mk_bool(a.t == b.t)
+
     def spec_clock(self, node):
         return SV(TReal, self.ctx.ghost["clock"])
 
@@ -1110,7 +1131,7 @@ _EMPTY_SET = _EmptyS()
 
 SPEC_FORMS = {
     "forall", "exists", "implies", "iff", "ite", "old", "asc", "desc", "distinct", "elems", "dom", "card",
-    "subset", "empty_set", "is_none", "some", "clock", "raised", "ghost", "get", "int_of", "str_of", "lpre", "pos", "eq_ci", "local",
+    "subset", "empty_set", "is_none", "some", "clock", "raised", "ghost", "get", "int_of", "str_of", "lpre", "pos", "eq_ci", "local", "list_of", "single", "same",
 }
 
 import itertools
